@@ -5,6 +5,7 @@ import re
 import shutil
 
 import gen
+from common import REPLAYS as common_REPLAYS
 from common import Broken, VERIF, NCPU, run_th, parallel_th, rundir, tlc, tlc_counterexample, log
 
 VM_BUDGET = 60000       # instructions the real VM may execute (final-state comparison)
@@ -114,7 +115,7 @@ def validate(chk, progs, name="sem", batches=None, timeout=1500, invariants=("Se
         at = int(m.group(1)) if m else -1
         culprit = next((p for lo, hi, p in bounds if lo <= at <= hi), None)
         accepted += sum(1 for lo, hi, p in bounds if hi < at)
-        keep = os.path.join(VERIF, "replays", chk.pid)
+        keep = os.path.join(common_REPLAYS, chk.pid)
         os.makedirs(keep, exist_ok=True)
         rp = {"files": culprit and culprit["files"], "main": culprit and culprit["main"], "seed": culprit and culprit["seed"],
               "ast": culprit and culprit["ast"]}
